@@ -23,6 +23,9 @@ for mp in sorted(glob.glob(f"{root}/seeded/*/meta.json")):
     ent = {"patch": f"seeded/{sid}/patch.diff", "property": m.get("detected_by", m["breaks_property"]), "note": "seeded change " + sid}
     if m.get("detected_by"):
         ent["note"] += f" (seeded against {m['breaks_property']}; it violates {m['detected_by']}'s clause, see meta.json)"
+    if m.get("not_detected") and not m.get("outside_property_text"):
+        ent["expect"] = "undetected"
+        ent["note"] += " (a miss: not detected by the checks as they stand, see meta.json)"
     if m.get("outside_property_text"):
         ent["expect"] = "undetected"
         ent["note"] += " (not a violation of the property as stated; kept for the record)"
